@@ -269,7 +269,7 @@ def r4_determinism(ctx):
                 r.violation("ambient@%s/%s" % (short, nm.split("::")[-1]), "%s calls %s" % (b.nname, nm), b.where(bi))
             if "HashMap" in nm and b.crate == "melvm":
                 last = nm.split("::")[-1]
-                r.check(last in ("get", "insert", "new", "default", "with_capacity", "from_iter", "collect"), "heap@%s/%s" % (short, last), "heap access by key (%s)" % last, "%s uses HashMap::%s" % (b.nname, last), b.where(bi))
+                r.check(last in ("get", "insert", "new", "default", "with_capacity", "from_iter", "collect", "len", "is_empty", "contains_key", "get_mut", "entry", "remove", "reserve", "capacity"), "heap@%s/%s" % (short, last), "heap access by key (%s)" % last, "%s uses HashMap::%s" % (b.nname, last), b.where(bi))
     # no global state: a covenant's verdict is a function of (bytecode, transaction, environment); a static with interior mutability (cache, counter, memo table)
     # reachable from the interpreter makes the verdict depend on what was executed before, on this node only
     for it in prog.items:
@@ -372,7 +372,10 @@ def r7_bounded_exp(ctx):
         f = force(cb, {e: V(0)})
         after = f.reach_from(bi)
         r.check(not any(l in after for l in latches), "budget/exhausted=>fail", "an exhausted budget fails the instruction", "the loop continues with an exhausted budget", cb.where(bi))
-    kd = q.var_def_exprs(cb, "k")
+    # the budget variable is whatever the checked_sub(1) is applied to (its name is a spelling)
+    bud = mir.strip(cs[0][1][2][0]) if cs else None
+    bname = bud[1] if bud is not None and bud[0] == "var" else "k"
+    kd = q.var_def_exprs(cb, bname)
     init = [sig(x[1]) for x in kd if "checked_sub" not in sig(x[1])]
     r.check(init == ["AddWithOverflow((^k as u16), 1).0"], "budget/initial", "initial budget = k + 1 bits", "initial budget = %s" % init)
     # the loop runs while S > 0 and halves that same S every iteration (S: whatever the exponent variable is called / wherever the loop lives)
@@ -438,6 +441,52 @@ def r7_exp_algorithm(ctx):
     margs = {sig(q.novers(mir.strip(x))) for x in mu[0][1][2]}
     base = sig(q.novers(mir.strip(sq[0][1][2][0])))
     r.check(any(base in m_ for m_ in margs), "exp/multiply-by-base", "res is multiplied by the running base", "res is multiplied by %s, the squared variable is %s" % (sorted(margs), base), cb.where(mu[0][0]))
+
+
+def r11_conversions_and_branches(ctx):
+    """clauses of the statement that no other rule reads: integers are big-endian on the stack's byte strings (BtoI / ItoB), Bez jumps exactly when the popped value is
+    the integer zero and Bnz exactly when it is not"""
+    r = ctx.rule("R11", "BtoI = from_be_bytes of exactly 32 bytes, ItoB = to_be_bytes; Bez jumps iff top == 0, Bnz iff top != 0", positional=False)
+    st, variants, table, nowild = _step_table(ctx, r)
+    for v, good, bad in (("BtoI", "from_be_bytes", "from_le_bytes"), ("ItoB", "to_be_bytes", "to_le_bytes")):
+        a = table.get(v)
+        cb = a and a["closure"]
+        if cb is None:
+            r.undecided("%s/endianness" % v, "the %s arm is not a do_monop closure" % v)
+            continue
+        names = {e[1].split("::")[-1] for c in ctx.prog.all_nested(cb) for bi, e in q.all_call_exprs(c) if e[0] == "call"}
+        if bad in names and good not in names:
+            r.violation("%s/endianness" % v, "%s converts with %s: integers are big-endian in byte strings (a covenant comparing a hash with a constant would compare the bytes reversed)" % (v, bad), "%s:%s" % (cb.file, cb.line))
+        elif good in names:
+            r.ok("%s/endianness" % v, "%s uses %s" % (v, good))
+        else:
+            r.undecided("%s/endianness" % v, "%s: conversion call not found (%s)" % (v, sorted(n for n in names if "bytes" in n)))
+    # Bez / Bnz: arms of the step closure itself (no helper): the pc write by the operand is reached exactly under the stated outcome of `top.into_int() == Some(0)`
+    for v, jump_when_zero in (("Bez", 1), ("Bnz", 0)):
+        a = table.get(v)
+        if a is None:
+            continue
+        reach = a["reach"]
+        ats = [(e_, cn, bi_) for e_, cn, bi_ in q.cmp_atoms(st) if bi_ in reach and "Value::into_int(" in cn and ("Some{0: " in cn or "Option::Some" in cn)]
+        ws = [w for w in q.stmt_writes(st, "pc") if w[0] == "assign" and w[1] in reach and (" as %s)" % v) in sig(w[4])]
+        if len(ats) > 1 and ws:
+            ats = [a_ for a_ in ats if any(st.dominates(a_[2], w[1]) for w in ws)][:1] or ats
+        if len(ats) != 1 or not ws:
+            r.undecided("%s/condition" % v, "%s: test (%d candidates) or jump write (%d) not read" % (v, len(ats), len(ws)))
+            continue
+        e_, cn, bi_ = ats[0]
+        op = q.as_cmp(e_)[0]
+        if op not in ("Eq", "Ne"):
+            r.violation("%s/condition" % v, "%s tests the popped value with %s: the instruction branches on (in)equality with zero" % (v, cn[:80]), st.where(bi_))
+            continue
+        is_zero = 1 if op == "Eq" else 0
+        f_z = force(st, {e_: is_zero})          # the popped value IS the integer zero
+        f_n = force(st, {e_: 1 - is_zero})
+        jumps_z = any(w[1] in f_z.reach_from(bi_) for w in ws)
+        jumps_n = any(w[1] in f_n.reach_from(bi_) for w in ws)
+        okb = (jumps_z, jumps_n) == ((True, False) if jump_when_zero else (False, True))
+        r.check(okb, "%s/condition" % v, "%s jumps exactly when the popped value is %s zero" % (v, "" if jump_when_zero else "not"),
+                "%s jumps when the popped value is %s — the specification says %s" % (v, "zero" if jumps_z else "not zero" if jumps_n else "neither", "zero" if jump_when_zero else "not zero"), st.where(bi_))
 
 
 NARROW = ("U256::low", "U256::as_u8", "U256::as_u16", "U256::as_u32", "U256::as_u64", "U256::as_u128", "U256::as_usize", "U256::as_i8", "U256::as_i16", "U256::as_i32", "U256::as_i64", "U256::as_i128", "U256::as_isize", "U256::into_words", "U256::low_mut")
@@ -649,4 +698,4 @@ def shared(ctx):
     core.import_rules(ctx, [c11.r3_forward_pc, c11.r4_nesting, c11.r5_length_guards], "X11")
 
 
-RULES = [r1_dispatch, r2_alu, r3_failure_discipline, r4_determinism, r5_result, r6_layouts, r7_bounded_exp, r7_exp_algorithm, r8_narrowing, r9_bounds_on_full_width, r10_sigeok_bounds, shared]
+RULES = [r1_dispatch, r2_alu, r3_failure_discipline, r4_determinism, r5_result, r6_layouts, r7_bounded_exp, r7_exp_algorithm, r8_narrowing, r9_bounds_on_full_width, r10_sigeok_bounds, r11_conversions_and_branches, shared]
